@@ -294,7 +294,7 @@ class SendUnit(Unit):
 
 def keep_for(*prefixes):
     def keep(n):
-        return n.startswith(prefixes) or n.startswith(('implicit:', 'CANARY')) or '.no_failure' in n
+        return any(p_ in n for p_ in prefixes) or n.startswith(('implicit:', 'CANARY')) or '.no_failure' in n
     return keep
 
 
